@@ -242,7 +242,7 @@ Definition c07_case_row (r : list str) : list str :=
   | Some ls =>
     let d := regroup (flat_map line_stream ls) in
     let text := render_doc ls in
-    [bstr (lays_outb ls d); join (Str ",") (map rc_str (C07_rcs ls d)); text] ++
+    [bstr (lays_outb ls d); join (Str ",") (map rc_str (C07_rcs ls d) ++ (if C07_partial_dom ls d then [Str "PARTIAL"] else [])); text] ++
     (match sem d with
      | None => [Str "undef"]
      | Some ts => dec_of_N (N.of_nat (List.length ts)) :: flat_map triple_fields ts
